@@ -1122,11 +1122,14 @@ fn oracle_case(c: &Case, fails: &mut Vec<String>, stats: &mut BTreeMap<String, u
     let mut tx_times: BTreeMap<usize, Vec<(i64, Vec<u8>)>> = BTreeMap::new();
     let mut prev: Option<&Obs> = None;
     let mut dead: std::collections::BTreeSet<usize> = Default::default();
+    let mut aliased = false;
     for o in &obs {
         match o {
             Obs::Bad(s) => fail("panic", format!("the stack panicked ({})", s)),
             Obs::Cancel(k, s) if s == "ok" => {
-                dead.insert(*k);
+                if !dead.insert(*k) {
+                    aliased = true; // cancelled some later query through a stale handle
+                }
             }
             Obs::Rsp { k, pk, pd, src, sport, data, .. } => rsps.push((*k, *pk, *pd, src.clone(), *sport, data.clone())),
             Obs::Poll { t, txs, .. } => {
@@ -1148,10 +1151,14 @@ fn oracle_case(c: &Case, fails: &mut Vec<String>, stats: &mut BTreeMap<String, u
                     }
                 }
             }
-            Obs::Get(k, GetR::Ok(_)) | Obs::Get(k, GetR::Failed) if dead.contains(k) => {
+            Obs::Get(k, GetR::Ok(_)) | Obs::Get(k, GetR::Failed) | Obs::Get(k, GetR::Pending) if dead.contains(k) => {
                 // a handle whose slot was already freed (cancel / result taken) aliases whatever
-                // query reuses the slot: not attributable to query k
+                // query reuses the slot: from here on results cannot be attributed to ordinals
                 *stats.entry("stale_handle_results".into()).or_default() += 1;
+                aliased = true;
+            }
+            Obs::Get(_, GetR::Ok(_)) if aliased => {
+                *stats.entry("unattributed_results".into()).or_default() += 1;
             }
             Obs::Get(k, GetR::Failed) => {
                 dead.insert(*k);
@@ -1374,7 +1381,7 @@ fn run_wire_case(c: &Case, out: &mut dyn Write) {
                 }
             }
             "emit" => {
-                // emit <id> <flags> <opcode> <name hex> <type> <buflen|auto>   into a zero-filled buffer
+                // emit <id> <flags> <opcode> <name hex> <type> <buflen|auto> [<fill>]   into a buffer filled with <fill> (default 0)
                 let id: u16 = t[1].parse().unwrap();
                 let fl: u16 = t[2].parse().unwrap();
                 let opc: u8 = t[3].parse().unwrap();
@@ -1387,8 +1394,9 @@ fn run_wire_case(c: &Case, out: &mut dyn Write) {
                     question: DnsQuestion { name: &name, type_: qtype(ty) },
                 };
                 let blen = if t[6] == "auto" { repr.buffer_len() } else { t[6].parse().unwrap() };
+                let fill: u8 = t.get(7).map(|x| x.parse().unwrap()).unwrap_or(0);
                 match catch(AssertUnwindSafe(|| {
-                    let mut buf = vec![0u8; blen];
+                    let mut buf = vec![fill; blen];
                     repr.emit(&mut DnsPacket::new_unchecked(&mut buf[..]));
                     buf
                 })) {
@@ -1508,13 +1516,14 @@ fn gen_wire_case(rng: &mut Rng, id: String, tier: &str) -> Case {
         _ => "auto".into(),
     };
     ops.push(format!(
-        "emit {} {} {} {} {} {}",
+        "emit {} {} {} {} {} {} {}",
         rng.below(65536),
         *rng.pick(&[0x0100u16, 0, 0xffff, 0x8180, 0x0010, 0x7800]),
-        *rng.pick(&[0u8, 0, 1, 2, 7, 15]),
+        *rng.pick(&[0u8, 0, 1, 2, 7, 8, 15, 16, 31, 255]),
         hex(&nm),
         *rng.pick(&[1u16, 28, 5, 255, 65535]),
-        blen
+        blen,
+        *rng.pick(&[0u8, 0, 0xff, 0xa5, 0x5a, 0x0f])
     ));
     Case { id, cfg: vec![], ops }
 }
